@@ -124,6 +124,9 @@ Lemma fetch_box_inv b s sl k uidc (touch : msg -> msg) chg :
   let items := flat_map (fun p => match znth ms (p - 1) with
                                   | Some m => match k with
                                               | FFlags => [fetch_note p m uidc]
+                                              | FBoth => [fetch_note p m uidc;
+                                                          RBody p (if uidc then Some (m_uid m) else None)
+                                                                (m_cid m) (m_date m) (m_uid m)]
                                               | _ => [RBody p (if uidc then Some (m_uid m) else None)
                                                             (m_cid m) (m_date m) (m_uid m)]
                                               end
@@ -145,7 +148,7 @@ Proof.
     induction sl as [|p sl IH]; cbn [flat_map]; [constructor|].
     apply Forall_app; split; [|exact IH]. destruct (znth ms (p - 1)) as [m|] eqn:E; [|constructor].
     assert (Hz : znth (map m_uid ms) (p - 1) = Some (m_uid m)) by (rewrite znth_map, E; reflexivity).
-    destruct k; (constructor; [|constructor]); try (apply fetch_note_valid; exact Hz);
+    destruct k; repeat (constructor; [|]); try constructor; try (apply fetch_note_valid; exact Hz);
       unfold valid_on; cbn [apply_resp]; rewrite Hz, Z.eqb_refl; reflexivity. }
   assert (Hu : map m_uid ms' = uids b1') by (unfold ms'; rewrite map_at_uids by exact Hf; reflexivity).
   assert (H2 : boxinv b2) by (apply set_msgs_same_uids; trivial).
